@@ -11,6 +11,7 @@ import (
 	"github.com/Trendyol/go-dcp/config"
 	"github.com/Trendyol/go-dcp/couchbase"
 	"github.com/Trendyol/go-dcp/models"
+	"github.com/Trendyol/go-dcp/stream"
 )
 
 // Verification hooks (build tag "verif" only).
@@ -40,4 +41,14 @@ func VerifNewDcp(cfg *config.Dcp, client couchbase.Client, consumer models.Consu
 		eventHandler:     models.DefaultEventHandler,
 		bus:              EventBus.New(),
 	}
+}
+
+// VerifStream exposes the stream of a Dcp (nil until Start has built it).
+func VerifStream(d Dcp) stream.Stream {
+	return d.(*dcp).stream
+}
+
+// VerifBus exposes the event bus of a Dcp (membership change notifications travel on it).
+func VerifBus(d Dcp) EventBus.Bus {
+	return d.(*dcp).bus
 }
